@@ -296,3 +296,46 @@ Example C11_class_example :
   map ename (ecus (step_cls m_ex (DelGlob [91; 65; 45; 66; 93]))) = [nAB; [67]] /\
   glob_match_cls [65; 91] [65; 91] = true /\ glob_match_cls [65; 91; 66] [65; 66] = false.
 Proof. vm_compute. repeat split. Qed.
+
+(* ================= shared list objects =================
+   heap = the Python list objects, the slots of frames and signals hold indices, so one object may sit in several slots
+   (the same list handed to a Frame and to its Signal, a copy.copy clone, two signals defined on one list).  hrewrite_all g
+   is what rename_ecu (g = rename_in old new) and del_ecu (g = del_name n) do frame by frame: rewrite the sender list and
+   the signals' receiver lists IN PLACE, then Frame.update_receiver REBINDS the frame's receiver slot to a new object.
+   For every g that is idempotent on the stored lists the result, read through the slots, equals the result on the
+   matrix in which every slot holds a copy of its own - whatever is shared with whatever. *)
+Theorem C11_shared_lists_transparent :
+  forall (g : list name -> list name) (P : list name -> Prop) h fs,
+    (forall c, P c -> P (g c) /\ g (g c) = g c) ->
+    Forall P h -> Forall (hframe_in_range h) fs ->
+    let r := hrewrite_all g h fs in
+    map (deref_frame (fst r)) (snd r) = map (fun f => rewrite_frame g (deref_frame h f)) fs.
+Proof. exact shared_lists_transparent. Qed.
+Print Assumptions C11_shared_lists_transparent.
+
+(* the two rewrites of rename_ecu / del_ecu are idempotent on duplicate-free lists (P := NoDup) *)
+Theorem C11_rename_in_idempotent :
+  forall old new, new <> old ->
+    forall c, NoDup c -> NoDup (rename_in old new c) /\ rename_in old new (rename_in old new c) = rename_in old new c.
+Proof. exact rename_in_idem. Qed.
+Print Assumptions C11_rename_in_idempotent.
+
+Theorem C11_del_name_idempotent :
+  forall n c, NoDup c -> NoDup (del_name n c) /\ del_name n (del_name n c) = del_name n c.
+Proof. exact del_name_idem. Qed.
+Print Assumptions C11_del_name_idempotent.
+
+(* the statement is about the rebinding discipline: emptying the receiver list object in place instead
+   (`del self.receivers[:]`) is not transparent.  One object [B; C] is the frame's receiver list and its signal's:
+   renaming B -> D must give [C; D] in both slots (and does, when rebinding); in place, both end up empty. *)
+Definition h_sh : heap := [[nA]; [nB; [67]]].
+Definition f_sh : hframe := mkHFrame [70] 0 1 [mkHSig [115] 1 0] 0.
+Theorem C11_inplace_clear_not_transparent_refuted :
+  let g := rename_in nB [68] in
+  let r := hrewrite_all g h_sh [f_sh] in
+  let r' := hrewrite_all_inplace g h_sh [f_sh] in
+  map (deref_frame (fst r)) (snd r) = [mkFrame [70] [nA] [[67]; [68]] [mkSig [115] [[67]; [68]] 0] 0] /\
+  map (fun f => rewrite_frame g (deref_frame h_sh f)) [f_sh] = [mkFrame [70] [nA] [[67]; [68]] [mkSig [115] [[67]; [68]] 0] 0] /\
+  map (deref_frame (fst r')) (snd r') = [mkFrame [70] [nA] [] [mkSig [115] [] 0] 0].
+Proof. vm_compute. repeat split. Qed.
+Print Assumptions C11_inplace_clear_not_transparent_refuted.
